@@ -247,6 +247,18 @@ impl WriteVolatile for Wr {
             Wr::Scripted(s) => s.write_volatile(v),
             Wr::Fd { file, bad, script } => match script.pop_front().unwrap_or(Beh::Full) {
                 Beh::Fail => bad.write_volatile(v),
+                // a short write on a regular file: the file-size limit of the process lets exactly `k` more bytes in
+                // (a further write(2) inside the same call would fail with EFBIG; SIGXFSZ is ignored, see main)
+                Beh::Short(k) if k > 0 && k < v.len() => {
+                    let pos = file.stream_position().unwrap();
+                    let mut old = libc::rlimit { rlim_cur: 0, rlim_max: 0 };
+                    unsafe { libc::getrlimit(libc::RLIMIT_FSIZE, &mut old) };
+                    let lim = libc::rlimit { rlim_cur: pos + k as u64, rlim_max: old.rlim_max };
+                    unsafe { libc::setrlimit(libc::RLIMIT_FSIZE, &lim) };
+                    let r = file.write_volatile(v);
+                    unsafe { libc::setrlimit(libc::RLIMIT_FSIZE, &old) };
+                    r
+                }
                 _ => file.write_volatile(v),
             },
         }
@@ -451,11 +463,15 @@ impl Streams {
 }
 
 fn gen_script(rng: &mut Rng, fd: bool) -> String {
+    gen_script2(rng, fd, false)
+}
+/// `wr`: the script is for a descriptor sink (short writes can be produced there)
+fn gen_script2(rng: &mut Rng, fd: bool, wr: bool) -> String {
     let n = rng.below(7);
     (0..n)
         .map(|_| {
             if fd {
-                return if rng.chance(1, 4) { "E".to_string() } else { "F".to_string() };
+                return match rng.below(8) { 0 | 1 => "E".to_string(), 2 if wr => format!("S{}", 1 + rng.below(6)), _ => "F".to_string() };
             }
             match rng.below(10) {
                 0 | 1 => "F".to_string(),
@@ -494,7 +510,7 @@ pub fn gen_stream_ops(rec: &mut Rec, rng: &mut Rng, exec: &mut dyn FnMut(&mut Re
         let kind = *rng.pick(&["mutslice", "vec", "cursor", "scripted", "scripted", "fd"]);
         let data = if kind == "vec" || kind == "scripted" { let k = rng.below(4) as usize; rng.bytes(k) } else if kind == "fd" { vec![] } else { rng.bytes(dlen) };
         let pos = if kind == "cursor" { if rng.chance(1, 5) { dlen as u64 + rng.below(4) } else { rng.below(dlen as u64 + 1) } } else { 0 };
-        let script = if kind == "scripted" || kind == "fd" { gen_script(rng, kind == "fd") } else { String::new() };
+        let script = if kind == "scripted" || kind == "fd" { gen_script2(rng, kind == "fd", true) } else { String::new() };
         exec(rec, format!("wr.new id=0 kind={} data={} pos={} script={}", kind, hex(&data), pos, script));
         format!("{}.{} {} wr=0 count={}", prefix, if exact { "wavt" } else { "wvt" }, target, count)
     }
